@@ -50,8 +50,11 @@ package command
 //@   ensures tx != nil ==> tx.ID != nil && val(tx.ID) == old(val(commander.lastTXID)) + 1 && commander.lastTXID == tx.ID // C05
 //@   ensures tx == nil ==> commander.lastTXID == old(commander.lastTXID) // C05
 //@   ensures forall t0 *ledger.Transaction :: t0 != tx ==> t0.ID == old(t0.ID)
+// C13: the hash stored with the entry is the hash of the entry as it leaves here -- the transaction it points to included,
+// id and all (what the store serialises, and what a reader re-hashes)
+//@   ensures ret.Hash == hashOf(ite(old(commander.lastLog) == nil, ret.Hash[:0], old(commander.lastLog.Hash)), old(commander.lastLog) != nil, ret.Log, 0, deref(txOfLog(ret.Data))) // C13 C05
 //@   modifies Commander.lastLog, Commander.lastTXID, ledger.Transaction.ID, ledger.ChainedLog.Hash, pkg:batching, chan, ghost enqueued, ghost queueTail
-//@   property C05 C06
+//@   property C05 C06 C13
 // nextTXID: the id the next transaction will get; nothing is consumed (a dry run reports it)
 //@ func (*command.Commander).nextTXID
 //@   requires commander != nil && commander.lastTXID != nil
@@ -109,10 +112,13 @@ package command
 //@   ensures parameters.DryRun ==> published == old(published) && enqueued == old(enqueued) && commander.lastLog == old(commander.lastLog) && commander.lastTXID == old(commander.lastTXID)      // C14
 //@   ensures err != nil ==> published == old(published) && enqueued == old(enqueued)      // C06 C16
 //@   ensures err == nil && !parameters.DryRun ==> published == old(published) + 1      // C16
+// C12 C15 C02: the account locks taken for the script are given back on every path, error paths included (a refused
+// script leaves nothing behind that keeps a later one waiting)
+//@   ensures lockTaken ==> !lockHeld // C12 C15 C02
 // C12: whatever the store holds under the idempotency key, the command ends with a result or an error
 //@   nopanic // C12
 //@   property C02 C06 C07 C11 C14 C16
-//@   alsofor C12
+//@   alsofor C12 C15
 
 //@ func (*command.Commander).RevertTransaction
 //@   requires commander != nil && commander.lastTXID != nil && idle() && headOK(commander)
@@ -120,9 +126,10 @@ package command
 //@   ensures err != nil ==> published == old(published) && enqueued == old(enqueued)      // C06 C16
 //@   ensures err == nil && !parameters.DryRun ==> published == old(published) + 1      // C16
 //@   ensures forall k string :: held[k] == old(held[k])                          // C07 C10: every reservation is released on every path
+//@   ensures lockTaken ==> !lockHeld // C12 C15 C02 C10
 //@   nopanic // C12
 //@   property C02 C06 C07 C10 C11 C14 C16
-//@   alsofor C12
+//@   alsofor C12 C15
 
 //@ func (*command.Commander).SaveMeta
 //@   requires commander != nil && idle() && headOK(commander)
@@ -228,11 +235,33 @@ package command
 //@   assumes defaultLocker != nil && defaultLocker.intents != nil && defaultLocker.readLocks != nil && defaultLocker.writeLocks != nil
 //@   ensures forall c6 ref :: (old(closed(c6)) ==> closed(c6)) && (lockPhase[c6] == old(lockPhase[c6]) || (old(lockPhase[c6]) == 1 && lockPhase[c6] == 2 && closed(c6)))
 //@   ensures forall c7 ref :: lockPhase[c7] == 1 ==> old(lockPhase[c7]) == 1 && closed(c7) == old(closed(c7))
+//@   update rechecks = rechecks + 1
 //@   loop 1 invariant forall c8 ref :: (old(closed(c8)) ==> closed(c8)) && (lockPhase[c8] == old(lockPhase[c8]) || (old(lockPhase[c8]) == 1 && lockPhase[c8] == 2 && closed(c8)))
 //@   loop 1 invariant forall c9 ref :: lockPhase[c9] == 1 ==> old(lockPhase[c9]) == 1 && closed(c9) == old(closed(c9))
 //@   loop 1 invariant node != nil ==> node.object != nil && node.list != nil && lockPhase[node.object.acquired] == 1 && (node.previousNode != nil ==> node.previousNode != node) && (node.nextNode != nil ==> node.nextNode != node)
 //@   loop 1 invariant defaultLocker != nil && defaultLocker.intents != nil && defaultLocker.readLocks != nil && defaultLocker.writeLocks != nil
-//@   modifies map[string]*atomic.Int64, map[string]struct{}, ghost lockPhase, chan, pkg:collectionutils
+//@   modifies map[string]*atomic.Int64, map[string]struct{}, ghost lockPhase, ghost rechecks, chan, pkg:collectionutils
+//@   property C15
+
+// releaseIntent (the Unlock function every holder gets): gives the request's accounts back and re-examines the queue --
+// always: a release is the only event that can unblock a waiting request, also when the releasing request held
+// nothing for writing (its read locks keep writers out). The safety half of "every pending request is granted once
+// the conflicting holders have released".
+//@ spec RecheckSpec()
+//@   ensures forall c6 ref :: (old(closed(c6)) ==> closed(c6)) && (lockPhase[c6] == old(lockPhase[c6]) || (old(lockPhase[c6]) == 1 && lockPhase[c6] == 2 && closed(c6)))
+//@   ensures forall c7 ref :: lockPhase[c7] == 1 ==> old(lockPhase[c7]) == 1 && closed(c7) == old(closed(c7))
+//@   update rechecks = rechecks + 1
+//@   modifies map[string]*atomic.Int64, map[string]struct{}, ghost lockPhase, ghost rechecks, chan, pkg:collectionutils
+//@ func (*command.DefaultLocker).Lock$2
+// (recheck is the closure Lock$1, verified above against this very spec; the holder calls its Unlock once, while granted)
+//@   requires implements(recheck, RecheckSpec)
+//@   owns intent.acquired
+//@   assumes defaultLocker != nil && defaultLocker.intents != nil && defaultLocker.readLocks != nil && defaultLocker.writeLocks != nil && intent != nil && lockPhase[intent.acquired] == 2
+//@   assumes forall c3 ref :: !allocated(c3) ==> lockPhase[c3] == 0
+//@   ensures rechecks == old(rechecks) + 1
+//@   ensures lockPhase[intent.acquired] == 3
+// (inside Lock the closure is executed in place)
+//@   inline
 //@   property C15
 
 // ---- the compile cache (C08): a hit returns what was stored under the key computed from this text; a miss returns
